@@ -14,7 +14,7 @@ RULE = ('cases = generated G-SEL spec with 1-4 metric nodes of every direction/r
         'evaluator value / NaN / reference value for absent constraint, metric_values mirror); one evaluation = one '
         'evaluated architecture; non-trivial = a conditional constraint metric absent in >= 1 and present in >= 1 '
         'architecture; distinct by sha1(spec, evaluator plan)')
-BUDGET = {'quick': 150, 'thorough': 4000}
+BUDGET = {'quick': 300, 'thorough': 6000}
 
 
 @st.composite
